@@ -65,7 +65,12 @@ M4  storeCompressed: `fs.RemoveAll(filename)` after a failed storeCompressed2 de
 M5  harmless: Store's locals renamed (cacheDir->entry, tmpDir->staging) and the two path computations swapped
     -> exit 0, 19/19, facts regenerated (roles come from how a variable is assigned, not from its name), 0 disagreements.
 
-Unchanged tree: exit 0 for seeds 1, 2 (and 3 for harness+driver), 21/21 obligations, 0 disagreements, oracle failures
+FIX PHASE.  /repo 8962d3b repairs compressed-retrieve-enoent-reported-as-hit (retrieveFiles: `return false, err`); re-introduction
+(git revert on a scratch copy): exit 1, VIOLATION class compressed-retrieve-enoent-reported-as-hit, 22/23 (C12_facts_ok).
+restore-removes-old-entry-in-place stays a known finding: repairing it means changing Store's whole sequence (build the new entry,
+move the old one aside, rename, remove) - more than a small patch.  Quick on a quiet machine: 62-97 s.
+
+Unchanged tree before the fix phase: exit 0 for seeds 1, 2 (and 3 for harness+driver), 21/21 obligations, 0 disagreements, oracle failures
 only in the two listed classes, both witnesses confirmed on every run.
 
 Measured quick-tier wall times (./check C12 quick): 118 s .. 1704 s; CPU (user+sys) 3.4 .. 5.7 min per run.  The spread
